@@ -74,13 +74,17 @@ Section Model.
   Definition outcome := (option err * dict)%type.
 
   (* SpecClassMetadata._build_invalidation_map(klass); `plain` = the MRO walked
-     includes the classes that are not spec classes (klass = type(obj)) *)
-  Definition build_map (plain : bool) : imap :=
-    flat_map (fun na => edges_of (fst na) (a_inv (snd na))) (c_attrs cd)
+     includes the classes that are not spec classes (klass = type(obj), since
+     4d8435f); `mask` = a managed attribute masked by a member of such a class
+     takes that member's dependencies (Desc.builder_inv, since bc35211) *)
+  Definition build_map (plain mask : bool) : imap :=
+    flat_map (fun na => edges_of (fst na)
+                          (if mask then builder_inv cd (fst na) (snd na) else a_inv (snd na)))
+             (c_attrs cd)
     ++ levels_edges (map fst (c_attrs cd))
          (filter (fun l => plain || negb (l_plain l)) (c_levels cd)).
   (* metadata.invalidation_map_for(type(obj)) *)
-  Definition inv_map : imap := build_map true.
+  Definition inv_map : imap := build_map true true.
 
   Definition is_attr (n : name) : bool :=
     match attr_of cd n with Some _ => true | None => false end.
@@ -432,7 +436,7 @@ Section Model.
      with the map of the metadata's owner (no plain-subclass members).
      Python's recursion limit is the fuel. *)
   Section Old.
-    Definition old_map : imap := build_map false.
+    Definition old_map : imap := build_map false false.
 
     Fixpoint old_each (del : dict -> name -> outcome) (a : name) (ys : list name) (d : dict) : outcome :=
       match ys with
